@@ -225,7 +225,9 @@ let judge_record line =
                        let v1 = List.nth x1 i and v2 = List.nth x2 i in
                        if Z.add v0 v2 <> Z.add v1 v1 then nonaffine := true) x0
                  else nonaffine := true
-               | None, _, _ | _, None, _ | _, _, None -> ()
+               | None, None, None -> ()
+               (* a mix of answers and undecided values (no integral point found in an unbounded
+                  relaxation) is counted as non-uniform as well *)
                | _ -> nonaffine := true)
             | _ -> ()) l) by_rest;
     let kinds = String.concat "," (Hashtbl.fold (fun k v acc -> (jstr k ^ ":" ^ string_of_int v) :: acc) fail_kinds []) in
